@@ -1158,6 +1158,10 @@ func (vc *FuncVC) instr(b *ssa.BasicBlock, idx int, ins ssa.Instruction, st *Sta
 			val = tc.Unbox(tc.SortOf(x.AssertedType), v)
 		}
 		okc := vc.define(x.Name()+"_ok", ok)
+		if _, isIface := under(x.AssertedType).(*types.Interface); !isIface {
+			// an interface value that holds a T is the boxing of the T it holds
+			vc.assume(And(reach, okc), Eq(v, tc.Box(x.AssertedType, val)))
+		}
 		if x.CommaOk {
 			valc := vc.define(x.Name()+"_v", Ite(okc, val, tc.Zero(val.Sort)))
 			vc.tuples[x] = []Term{valc, okc}
